@@ -183,9 +183,30 @@ def world_case(chk, rng, wi, n_ops=40):
         o = rand_op(rng, wpart, "o%d" % j)
         ops.append(o + (wpart, "final"))
         steps.append(o[0])
+    # every type declared as a pure power T ** e: that very power (and the
+    # power of opposite sign, mostly undefined) of a quantity and of a unit
+    j = 0
+    for t in list(wpart.types.values()):
+        if len(t.defn) != 1 or t.defn[0][1] == 1:
+            continue
+        base, e = t.defn[0]
+        us = [u.sym for u in wpart.units_of(base)]
+        if not us:
+            continue
+        for n in (e, -e):
+            for k in "qu":
+                e1, m1 = operand(rng, wpart, rng.choice(us), k)
+                st = {"k": "p%d" % j, "e": OP(_inplace(rng, "**"), e1,
+                                              ["i", n]), "_m": (m1, n)}
+                j += 1
+                ops.append((st, wpart.predict_pow(m1, n),
+                            "(%s) ** %d" % (describe_operand(m1), n), False,
+                            (k, "n"), "**", wpart, "final"))
+                steps.append(st)
     w = wpart
     wid = "world%d" % wi
     planj = [d.to_json() for d in order]
+    n_pow = j
 
     def judge(obs, rec, case):
         if obs is None:
@@ -197,6 +218,8 @@ def world_case(chk, rng, wi, n_ops=40):
             chk.count("world-skipped|valid-declaration-rejected (C15's)")
             return
         chk.count("worlds")
+        if n_pow:
+            chk.count("defining powers of pure-power types", n_pow)
         if any(not t.has_ref for t in w.types.values()):
             chk.count("worlds-with-type-without-ref-unit")
         early_undefined = set()
@@ -306,7 +329,8 @@ def run(chk, R, tier, seed):
               "outcome|scaled", "quantized-result-type", "kinds|uq",
               "kinds|qu", "kinds|uu", "kinds|qq", "kinds|nq", "kinds|nu",
               "outcome|qty-noref", "outcome|incomm", "worlds",
-              "undefined before its type was declared, defined after"):
+              "undefined before its type was declared, defined after",
+              "defining powers of pure-power types"):
         chk.require(c)
     cases = predefined_cases(chk, rng, tier)
     run_cases(chk, R, cases, per_program=250)
